@@ -269,8 +269,9 @@ def EnvOK (env : Env) : Prop :=
 /-- a keyword of this name binds a positional parameter of `State.set` instead of becoming an attribute -/
 def reserved (a : String) : Bool := STATE_SET_PARAMS.contains a
 
-/-- operations on which `state.py`/`eval.py` implement the rules of the property (see the `_cex` theorems for the rest) -/
-def Conf (env : Env) : Op → Bool
+/-- operations on which `state.py`/`eval.py` (with the repairs `fx`) implement the rules of the property; what is
+excluded is a recorded finding (see the `_cex` / `_regress` theorems) or not modelled -/
+def Conf (fx : Fixes) (env : Env) : Op → Bool
   | .load parts =>
     match parts with
     | [_, _] => true
@@ -281,25 +282,48 @@ def Conf (env : Env) : Op → Bool
     | [d, _] =>
       (match v with
        | .plain _ => true
-       | .none => (pyVarSrc env d).isSome          -- `d.n = None` keeps the old value (finding F1)
-       | .snap _ => false)                         -- `d.n = <StateVal>` replaces the attributes (finding F2)
+       | .none => fx.assignNone || (pyVarSrc env d).isSome   -- before the fix `d.n = None` kept the old value (F1)
+       | .snap _ => false)                                   -- `d.n = <StateVal>` replaces the attributes (finding F2, open)
     | [d, _, a] =>
       (match v with
-       | .snap _ => false
-       | _ => (pyVarSrc env d).isSome || !reserved a)   -- `d.n.value = v` sets the state value (finding F3)
+       | .snap _ => false                                    -- not modelled
+       | _ => fx.setattrDict || (pyVarSrc env d).isSome || !reserved a)   -- before the fix `d.n.value = v` set the state (F3)
     | _ => false
   | .delStmt parts =>
     match parts with
-    | d :: _ :: _ => (pyVarSrc env d).isNone        -- `del obj.attr` on a Python variable goes to State.delete (finding F4)
+    | d :: _ :: _ => fx.delPyAttr || (pyVarSrc env d).isNone  -- before the fix `del obj.attr` went to State.delete (F4)
     | _ => false
   | .set _ v na _ =>
     match v, na with
-    | .snap _, Option.none => false                 -- finding F2 through `state.set`
+    | .snap _, Option.none => false                          -- finding F2 through `state.set`
     | _, _ => true
   | .setattr parts _ =>
     match parts with
-    | [_, _, a] => !reserved a                      -- finding F3 through `state.setattr`
+    | [_, _, a] => fx.setattrDict || !reserved a             -- F3 through `state.setattr`
     | _ => true
+  | _ => true
+
+/-- the fragment once all three repairs are in: only the open finding F2 (a `StateVal` value brings its attributes) and
+the unmodelled shapes (other part counts, a `StateVal` as attribute value) are left out -/
+def ConfNow (env : Env) : Op → Bool
+  | .load parts =>
+    match parts with
+    | [_, _] => true
+    | [d, n, _] => (pyVarSrc env d).isSome || !callableName env d n
+    | _ => false
+  | .store parts v =>
+    match parts with
+    | [_, _] => (match v with | .snap _ => false | _ => true)
+    | [_, _, _] => (match v with | .snap _ => false | _ => true)
+    | _ => false
+  | .delStmt parts =>
+    match parts with
+    | _ :: _ :: _ => true
+    | _ => false
+  | .set _ v na _ =>
+    match v, na with
+    | .snap _, Option.none => false
+    | _, _ => true
   | _ => true
 
 /-! ## abstraction: the dictionary an association list denotes -/
